@@ -7,10 +7,18 @@ import glob, json, os, re, sys
 
 REPO = os.environ.get("VERIF_REPO", "/repo")  # VERIF_REPO: evaluate a scratch copy (seeded changes); registered checks use /repo
 
+# harness files of a property that build on another property's files (the shared session driver
+# c01_session.go, the configuration fixture of c19_effect.go): every harness of that property in
+# that package needs them, because all cNN_ files of the property are compiled together
+NEEDS = {("server", "c04_"): ["c01_"], ("server", "c08_"): ["c01_"], ("server", "c16_"): ["c01_"],
+         ("server", "c05_"): ["c19_", "c01_"]}
+
 def files_for(pkg, fn, extra=()):
     m = re.match(r"VerifC(\d\d)", fn)
     want = ["c" + m.group(1) + "_"] if m else []
     want += [e for e in extra if e]
+    for w in list(want):
+        want += NEEDS.get((pkg, w), [])
     out = []
     for f in sorted(glob.glob(f"/verif/harness/{pkg}/*.go")):
         b = os.path.basename(f)
